@@ -23,6 +23,10 @@ Verdicts(e) ==
   \cup (IF (e.fmt = "par1" /\ e.verify.err = "") =>
               (e.verify.pusable <= e.intact_vols /\ e.verify.usable <= e.intact_data)
         THEN {} ELSE {"C13.verify_result_truthful"})
+  \* a result that omits intact recovery blocks misleads as well (it can say "repair not possible" when it is):
+  \* when Verify returns a result, its usable recovery-block count is the number of distinct intact blocks beside the index
+  \cup (IF (e.fmt = "par2" /\ e.verify.err = "" /\ e.index_intact) => e.verify.pusable = Len(e.intact_exps)
+        THEN {} ELSE {"C13.verify_counts_every_intact_block"})
   \cup (IF e.changed_ok THEN {} ELSE {"C13.repair_writes_only_originals"})
   \cup (IF e.outside = << >> THEN {} ELSE {"C13.nothing_else_modified"})
   \cup (IF (~e.fatal /\ e.repair.err = "") => e.restored THEN {} ELSE {"C13.repair_success_means_restored"})
